@@ -58,6 +58,11 @@ def replay_state(st):
             bad.append(("C18.volume-value", dict(flat=True, **where0), ex["flat2"] ** 0.5, vol))
         if ex["zvol"] >= 0 and abs(vol - ex["zvol"]) > 1e-9 * (1 + ex["zvol"]):
             bad.append(("C18.volume-value", dict(zonotope=True, **where0), ex["zvol"], vol))
+        # proj_P_for_hull reduces a flat cloud to its affine span: the dimension it reports is the exact affine rank
+        if ex["affdim"] >= 1:
+            ndim = int(dreye.proj_P_for_hull(P.copy(), return_ndim=True, return_hull=False))
+            if ndim != ex["affdim"]:
+                bad.append(("C18.affine-dimension", where0, ex["affdim"], ndim))
         if ex["wcoef"] >= 0 and len(hist) <= 1:
             w_exact = CD[d] * ex["wcoef"]
             wbig = float(dreye.compute_mean_width(P.copy(), n=60000, seed=5, vectorized=True))
